@@ -395,6 +395,77 @@ fn normalise(v: Value, drop: &[&str], sets: &[&str], sort_here: bool) -> Value {
     }
 }
 
+/// Fast canonical text of an in-memory object: serde JSON with every `"timeline":[…]` array
+/// removed, the items of every `"conflicts":[…]` array sorted (they come out of a `HashMap`), and
+/// known ids replaced by symbolic names. Map keys are *not* re-sorted: in memory the ids are
+/// synthetic and increase with creation order, so `BTreeMap` order already is creation order.
+/// (The slower `canon_json` is used when a real repository is on the other side.)
+pub fn fast_view<T: serde::Serialize>(v: &T, names: &[(String, String)]) -> String {
+    let mut s = serde_json::to_string(v).expect("serialize");
+    cut_arrays(&mut s, "\"timeline\":[", false);
+    for (from, to) in names {
+        if s.contains(from.as_str()) {
+            s = s.replace(from.as_str(), to.as_str());
+        }
+    }
+    cut_arrays(&mut s, "\"conflicts\":[", true);
+    s
+}
+
+/// For every occurrence of `open` (which ends with `[`): find the matching `]`; either remove the
+/// content (`sort == false`) or sort its top-level items.
+fn cut_arrays(s: &mut String, open: &str, sort: bool) {
+    let mut from = 0;
+    while let Some(pos) = s[from..].find(open) {
+        let start = from + pos + open.len();
+        let bytes = s.as_bytes();
+        let (mut depth, mut i, mut in_str) = (1usize, start, false);
+        let mut items: Vec<(usize, usize)> = vec![];
+        let mut item_start = start;
+        while i < bytes.len() {
+            let b = bytes[i];
+            if in_str {
+                if b == b'\\' {
+                    i += 1;
+                } else if b == b'"' {
+                    in_str = false;
+                }
+            } else {
+                match b {
+                    b'"' => in_str = true,
+                    b'[' | b'{' => depth += 1,
+                    b']' | b'}' => {
+                        depth -= 1;
+                        if depth == 0 {
+                            break;
+                        }
+                    }
+                    b',' if depth == 1 => {
+                        items.push((item_start, i));
+                        item_start = i + 1;
+                    }
+                    _ => {}
+                }
+            }
+            i += 1;
+        }
+        let end = i; // index of the closing bracket
+        if end > item_start {
+            items.push((item_start, end));
+        }
+        let replacement = if sort {
+            let mut v: Vec<&str> = items.iter().map(|(a, b)| &s[*a..*b]).collect();
+            v.sort();
+            v.join(",")
+        } else {
+            String::new()
+        };
+        let new_end = start + replacement.len();
+        s.replace_range(start..end, &replacement);
+        from = new_end;
+    }
+}
+
 pub fn hex(o: &Oid) -> String {
     o.to_string()
 }
